@@ -362,30 +362,58 @@ class Graph(object):
         return paths
 
 
+_RE_LABEL = re.compile(r'"((?:[^"\\]|\\.)*)"')
+
+
+class LazyStates(object):
+    """nid -> parsed state, parsed on first access from the raw dot label (135 MB of labels parse in ~30 s, so
+    the parent only touches what it needs and the forked replay workers parse the states of their own paths)."""
+
+    def __init__(self, keep=None):
+        self.raw = {}
+        self.memo = {}
+        self.keep = keep
+
+    def __getitem__(self, nid):
+        st = self.memo.get(nid)
+        if st is None:
+            st = parse_state(_unescape_dot(self.raw[nid]))
+            if self.keep is not None:
+                st = {k: v for k, v in st.items() if k in self.keep}
+            self.memo[nid] = st
+        return st
+
+    def __len__(self):
+        return len(self.raw)
+
+    def __iter__(self):
+        return iter(self.raw)
+
+    def __contains__(self, nid):
+        return nid in self.raw
+
+
 def parse_dot(path, keep=None):
-    """Parse a TLC '-dump dot,actionlabels' file. keep: optional set of variable names to retain."""
+    """Parse a TLC '-dump dot,actionlabels' file (structure eagerly, state labels lazily)."""
     g = Graph()
+    g.states = LazyStates(keep)
+    raw = g.states.raw
     with open(path, 'r') as f:
         for line in f:
             if not line or line[0] not in '-0123456789':
                 continue
             sp = line.find(' ')
             a = line[:sp]
-            rest = line[sp + 1:]
-            if rest.startswith('-> '):
-                sp2 = rest.find(' ', 3)
-                b = rest[3:sp2]
-                li = rest.find('[label="', sp2)
-                raw, _ = _read_label(rest, li + 7)
-                g.succ.setdefault(int(a), []).append((_unescape_dot(raw), int(b)))
-            elif rest.startswith('[label="'):
-                raw, end = _read_label(rest, 7)
-                st = parse_state(_unescape_dot(raw))
-                if keep is not None:
-                    st = {k: v for k, v in st.items() if k in keep}
+            if line.startswith('-> ', sp + 1):
+                sp2 = line.find(' ', sp + 4)
+                b = line[sp + 4:sp2]
+                m = _RE_LABEL.search(line, sp2)
+                g.succ.setdefault(int(a), []).append((m.group(1), int(b)))
+            elif line.startswith('[label="', sp + 1):
+                m = _RE_LABEL.match(line, sp + 8)
                 nid = int(a)
-                g.states[nid] = st
-                if rest.startswith(',style = filled', end):
+                raw[nid] = m.group(1)
+                if line.startswith(',style = filled', m.end()):
                     g.init.append(nid)
     return g
 
